@@ -280,6 +280,19 @@ def ladder(gm: GrammarModel, root: str = 'expression') -> list[Level]:
 					levels.append(Level(cur, alias or cur, 'binary', op_tokens(nt_name(ivs[0])), cur, depth))
 					nxt = names[0]
 					continue
+			# X op Y  (the same binary level written left-recursively: `floor_div: factor | floor_div _op factor`); Y op X nests to the right and is
+			# recorded with the level itself as operand, like `Y (op X)*`, for ladder-shape to report
+			if len(vs) == 3 and all(names) and names[1] in defs and (names[1].startswith('_') or names[1].endswith('_op')) and cur in (names[0], names[2]) and names[0] != names[2]:
+				try:
+					toks = op_tokens(names[1])
+				except AnalysisError:
+					toks = None
+				if toks is not None:
+					lower = names[2] if names[0] == cur else names[0]
+					levels.append(Level(cur, alias or cur, 'binary', toks, lower if names[0] == cur else cur, depth))
+					if nxt is None or nxt == lower:
+						nxt = lower
+					continue
 			# op X  (prefix, recursive)
 			if len(vs) == 2 and names[0] and names[1] == cur and (names[0].startswith('_') or names[0].endswith('_op')):
 				levels.append(Level(cur, alias or cur, 'prefix', op_tokens(names[0]), cur, depth))
